@@ -549,6 +549,34 @@ impl VOp {
     }
 }
 
+impl VOp {
+    pub fn from_json(v: &Value) -> Option<VOp> {
+        let a = v.as_array()?;
+        let k = a.first()?.as_str()?;
+        let n = || a.get(1).and_then(|x| x.as_u64());
+        Some(match k {
+            "push" => VOp::Push(n()? as usize),
+            "truncate" => VOp::Truncate(n()? as usize),
+            "write" => VOp::Write,
+            "flush" => VOp::Flush,
+            "stamped_write" => VOp::StampedWrite(n()?),
+            "reset" => VOp::Reset,
+            "reset_unsaved" => VOp::ResetUnsaved,
+            "reimport" => VOp::Reimport,
+            "update" => VOp::Update(n()? as usize),
+            "delete" => VOp::Delete(n()? as usize),
+            "take" => VOp::Take(n()? as usize),
+            "fill_first_hole_or_push" => VOp::Fill,
+            "commit" => VOp::Commit(n()?),
+            "rollback" => VOp::Rollback,
+            "rollback_before" => VOp::RollbackBefore(n()?),
+            "bad_update" => VOp::BadUpdate(n()? as usize),
+            "bad_checked_push" => VOp::BadCheckedPush(n()? as usize),
+            _ => return None,
+        })
+    }
+}
+
 pub fn vops_json(ops: &[VOp]) -> Value {
     Value::Array(ops.iter().map(|o| o.to_json()).collect())
 }
@@ -728,10 +756,12 @@ impl<T: Elem> VModel<T> {
                 }
             }
             VOp::Commit(s) => {
+                let from = self.cur.stamp;
                 self.cur.stamp = *s;
                 if self.keep > 0 {
-                    // records of an abandoned future are dropped, the oldest beyond k-1 pruned
-                    self.files.retain(|&st, _| st < *s);
+                    // records of an abandoned future (at or above the new stamp, or above the
+                    // stamp this commit starts from) are dropped, the oldest beyond k-1 pruned
+                    self.files.retain(|&st, _| st < *s && st <= from);
                     while self.files.len() > self.keep as usize - 1 {
                         let first = *self.files.keys().next().unwrap();
                         self.files.remove(&first);
